@@ -29,3 +29,5 @@ open SamVerif.C01
 #print axioms set_spec
 #print axioms pop_spec
 #print axioms assemble_printBytes
+#print axioms cpe_anyslot_counterexample
+#print axioms cpe_prog_unused_many_preserves
